@@ -857,3 +857,14 @@ N('SC-single-row-unpacked-range', ['C03'], 'type_blocks.py', 'TypeBlocks._slice_
   'if len(range(*row_key.indices(self._shape[0]))) == 1:', 'start, stop, step = row_key.indices(self._shape[0])\n            if len(range(start, stop, step)) == 1:')
 N('SC-single-row-ceil', ['C03'], 'type_blocks.py', 'TypeBlocks._slice_blocks',
   'if len(range(*row_key.indices(self._shape[0]))) == 1:', 'start, stop, step = row_key.indices(self._shape[0])\n            if step > 0 and 0 < stop - start <= step or step < 0 and 0 < start - stop <= -step:')
+
+# ---------------------------------------------------------------------------------- zip member names (C17)
+B('MN-replace-anywhere', ['C17'], 'store_zip.py', '_StoreZip.labels',
+  'if strip_ext and self._EXT_CONTAINED and name.endswith(self._EXT_CONTAINED):\n                    # remove only the suffix added on write\n                    name = name[:-len(self._EXT_CONTAINED)]',
+  "if strip_ext:\n                    name = name.replace(self._EXT_CONTAINED, '')", 'I.member-name-inverse', 'labels')
+B('MN-split-first', ['C17'], 'store_zip.py', '_StoreZip.labels',
+  'if strip_ext and self._EXT_CONTAINED and name.endswith(self._EXT_CONTAINED):\n                    # remove only the suffix added on write\n                    name = name[:-len(self._EXT_CONTAINED)]',
+  "if strip_ext and self._EXT_CONTAINED:\n                    name = name.split(self._EXT_CONTAINED)[0]", 'I.member-name-inverse', 'labels')
+N('MN-removesuffix', ['C17'], 'store_zip.py', '_StoreZip.labels',
+  'if strip_ext and self._EXT_CONTAINED and name.endswith(self._EXT_CONTAINED):\n                    # remove only the suffix added on write\n                    name = name[:-len(self._EXT_CONTAINED)]',
+  "if strip_ext:\n                    name = name.removesuffix(self._EXT_CONTAINED)")
